@@ -51,6 +51,30 @@ pub fn script(seed: u64, idx: u64) -> Trace {
             push(&mut t, Op::Restart { mode: CloseMode::FlushCrash, edits: Vec::new() });
         }
     }
+    if idx % 4 == 2 {
+        // a summary stream longer than the container's 8 KiB stream buffer: loading it
+        // at open needs a refill read; then a table change *before* a summary edit in
+        // one save window, and the other way round
+        let mut id = t.ops.iter().map(|o| o.id).max().unwrap_or(0) + 1;
+        let mut push = |t: &mut Trace, op: Op| {
+            t.ops.push(OpRec { id, op });
+            id += 1;
+        };
+        let long: String = (0..9000 + (idx as usize % 7) * 13).map(|i| (b'a' + (i % 23) as u8) as char).collect();
+        push(&mut t, Op::Summary(SumOp::SetStr(SumField::Subject, long)));
+        push(&mut t, Op::Summary(SumOp::SetStr(SumField::Author, "Q9100Q first".into())));
+        push(&mut t, Op::Restart { mode: CloseMode::IntoInner, edits: Vec::new() });
+        let cols = vec![ColSpec::new("K", CType::I16).key(), ColSpec::new("V", CType::I16).nullable()];
+        push(&mut t, Op::CreateTable { name: "Ts".into(), cols });
+        push(&mut t, Op::Flush);
+        push(&mut t, Op::Insert { table: "Ts".into(), rows: vec![vec![Val::Int(1), Val::Int(2)]] });
+        push(&mut t, Op::Summary(SumOp::SetStr(SumField::Author, "Q9101Q second".into())));
+        push(&mut t, Op::Flush);
+        push(&mut t, Op::Restart { mode: CloseMode::FlushCrash, edits: Vec::new() });
+        push(&mut t, Op::Summary(SumOp::SetStr(SumField::Title, "Q9102Q".into())));
+        push(&mut t, Op::Insert { table: "Ts".into(), rows: vec![vec![Val::Int(2), Val::Null]] });
+        push(&mut t, Op::Restart { mode: CloseMode::IntoInner, edits: Vec::new() });
+    }
     if idx % 4 == 1 {
         // a table stream larger than the container's 8 KiB stream buffer (and than a
         // std BufWriter): the save pushes out full buffers before its final flush
